@@ -4,7 +4,7 @@
   (a scatter) give: getDataBlocks (codewords s d) = blocks of (data_b ++ ecc_b), for EVERY data vector d.
 -/
 import Gzx.Proofs.DMIlvIdx
-import Gzx.Proofs.DMIlv
+import Gzx.Proofs.DMEcc
 namespace Gzx.DMProofs
 open Gzx Gzx.DMRef
 
